@@ -218,6 +218,18 @@ pub fn exec(line: &str, _model: &mut Model) -> Option<Exec> {
             e.model_line = Some(format!("cli.rnd {} {}", bytes.as_ref().map(|x| hex(x)).unwrap_or("-".into()), hex(id.as_bytes())));
             Some(e)
         }
+        "cli.now" => {
+            // `bp7 dtntime` without argument: the current DTN time (library: dtn_time_now()), within a few seconds
+            let before = dtn_time_now();
+            let r = run_cli(&["dtntime".to_string()], None)?;
+            let after = dtn_time_now();
+            let printed: Option<u64> = std::str::from_utf8(&r.out).ok().and_then(|s| s.strip_suffix('\n')).and_then(|s| s.parse().ok());
+            let good = r.code == 0 && matches!(printed, Some(v) if v + 5_000 >= before && v <= after + 5_000);
+            let mut e = Exec::new(if good { "ok".into() } else { format!("exit {} {:?}", r.code, String::from_utf8_lossy(&r.out)) });
+            if !good { e.oracle_fail = Some(format!("`bp7 dtntime` printed {:?} (exit {}), the library's dtn_time_now() is {}..{}", String::from_utf8_lossy(&r.out), r.code, before, after)); }
+            e.model_line = Some("cli.nop".into());
+            Some(e)
+        }
         "cli.dur" => {
             let s = String::from_utf8(unhex(t.get(1)?)?).ok()?;
             let r = no_panic(|| humantime::parse_duration(&s));
@@ -277,6 +289,14 @@ pub fn generate(ctx: &mut Ctx, rep: &mut Report, emit: &mut dyn FnMut(&mut Ctx, 
     // decode: encoded bundles of the C01 domain, raw on stdin or as hex argument; plus damaged ones
     for _ in 0..ctx.n(400, 20_000) {
         let mut b = gen_bundle(&mut rng, &Opts { wf: true, max_blocks: 4 });
+        if rng.chance(1, 5) {
+            // payloads beyond stdout's buffer size, text-like with newlines and binary
+            let n = 1500 + rng.below(12_000) as usize;
+            let mut d = rng.bytes(n);
+            if rng.chance(1, 2) { for x in d.iter_mut() { *x = b'a' + (*x % 26); } }
+            for _ in 0..1 + rng.below(4) { let k = rng.below(n as u64 / 2) as usize; d[k] = b'\n'; }
+            b.set_payload(d);
+        }
         let mut bytes = b.to_cbor();
         let damaged = rng.chance(1, 6);
         if damaged && !bytes.is_empty() { let i = rng.below(bytes.len() as u64) as usize; match rng.below(3) { 0 => bytes[i] ^= 1 << rng.below(8), 1 => bytes.truncate(i), _ => bytes.push(0) } }
@@ -298,6 +318,7 @@ pub fn generate(ctx: &mut Ctx, rep: &mut Report, emit: &mut dyn FnMut(&mut Ctx, 
     }
     for (cmd, okc) in [("encode", [4usize, 5]), ("decode", [3, 4])] { for n in 2..=7usize { if !okc.contains(&n) { emit(ctx, rep, format!("cli.args {} {}", cmd, n)); } } }
     for i in 0..ctx.n(12, 200) { emit(ctx, rep, format!("cli.rnd {} {}", if i % 2 == 0 { "x" } else { "r" }, i)); }
+    for i in 0..ctx.n(3, 20) { emit(ctx, rep, format!("cli.now {}", i)); }
     // the duration grammar, in process against the humantime crate
     for _ in 0..ctx.n(6_000, 500_000) {
         let s = gen_lifetime(&mut rng);
